@@ -1,7 +1,7 @@
 import Tw.Model.NetSim
 import Tw.Model.Conn6
 import Tw.Model.Conn7
-import Tw.Proofs.NetSim
+import Tw.Proofs.ConnSafetyOnline
 import Tw.Proofs.Conn6
 import Tw.Proofs.Conn7
 
@@ -36,7 +36,7 @@ proved); (c) "`Ready` at most once over a whole run" and the 0.7 counterpart of 
 (the two-endpoint oracle `C01/ready-twice`, `C01/ready-before-accept` checks them on the implementation).
 -/
 namespace Tw.Props.C01
-open Tw.Conn Tw.NetSim
+open Tw.Conn Tw.NetSim Tw.NetSim.Core
 
 /-- Tie: the sequence modulus the modular arithmetic of the proofs is written for -/
 theorem tie_seqmod : seqMod = 1024 ∧ Tw.Gen.Conn.P7.SEQUENCE_MODULUS = 1024 ∧ maxNumChunks = 255 := by decide
